@@ -291,6 +291,11 @@ inline SizeArg genSizeArg(int64_t totalBytes, int maxUnit = 3) {
   return t;
 }
 
+// ticks are not aligned to whole seconds: a sub-second offset for a tick advance
+inline int subsecMs() {
+  return P(40) ? R(1, 999) : 0;
+}
+
 // a `cgroup` argument: 1-3 comma separated patterns over the tree
 inline std::string genCgroupArg(const World& w, bool allowRoot = true) {
   std::vector<std::string> paths;
@@ -300,7 +305,7 @@ inline std::string genCgroupArg(const World& w, bool allowRoot = true) {
   std::string out;
   for (int i = 0; i < n; i++) {
     std::string pat;
-    int kind = W({45, 30, 10, allowRoot ? 7 : 0, 8});
+    int kind = W({45, 30, 10, allowRoot ? 7 : 0, 8, 4});
     std::string base = paths.empty() ? "a" : oneOf(paths);
     switch (kind) {
       case 0: // literal path of the tree
@@ -335,6 +340,9 @@ inline std::string genCgroupArg(const World& w, bool allowRoot = true) {
         break;
       case 4: // does not exist
         pat = base + "/nonexistent";
+        break;
+      case 5: // a blank entry ("a, " / "a, ,b"): names a cgroup called " ", which does not exist
+        pat = oneOf(std::vector<std::string>{" ", "  ", "\t"});
         break;
     }
     out += (i ? "," : "") + pat;
